@@ -35,6 +35,7 @@ class View:
         self.I = items
         self.F = F
         self._prom = {}
+        self.used = set()      # kinds of tables the analysed bodies actually read
 
     def strip(self, t):
         """drop unsize coercions, resolve promoteds to what they borrow, cancel deref(ref)"""
@@ -70,6 +71,7 @@ class View:
         if t[0] == 'named':
             k = tables.const_kind_by_path(self.inst, t[1])
             if k in ('T2', 'T3', 'T4'):
+                self.used.add(k)
                 return (k, t[1])
             return None
         if t[0] == 'agg' and t[1] == 'array':
